@@ -20,10 +20,10 @@ import (
 type wkind int
 
 const (
-	wNone  wkind = iota // not tracked
-	wInt                // signed integer with `bits`
-	wIFlt               // float holding an integer of `bits` bits, exact so far
-	wInex               // float that has lost integer exactness (bits is still a magnitude bound)
+	wNone wkind = iota // not tracked
+	wInt               // signed integer with `bits`
+	wIFlt              // float holding an integer of `bits` bits, exact so far
+	wInex              // float that has lost integer exactness (bits is still a magnitude bound)
 )
 
 type wval struct {
